@@ -325,6 +325,7 @@ class MatrixCreator {
   void addMovingPin(int c1, int c2, float offs1, float offs2, float weight);
   void addFixedPin(int c1, float offs1, float pos, float weight);
 
+  bool singleCellNet(int net) const;
   void normalize();
   void finalize();
 
@@ -473,6 +474,16 @@ MatrixCreator MatrixCreator::createLightStar(const NetModel &topo,
   return ret;
 }
 
+bool MatrixCreator::singleCellNet(int net) const {
+  // All the pins are on the same cell: the net contributes a constant
+  for (int i = 1; i < topo_.nbPins(net); ++i) {
+    if (topo_.pinCell(net, i) != topo_.pinCell(net, 0)) {
+      return false;
+    }
+  }
+  return true;
+}
+
 void MatrixCreator::addBipoint(int net) {
   addPin(topo_.pinCell(net, 0), topo_.pinCell(net, 1), topo_.pinOffset(net, 0),
          topo_.pinOffset(net, 1), topo_.netWeight(net));
@@ -491,7 +502,9 @@ void MatrixCreator::addClique(int net) {
 
 void MatrixCreator::addStar(int net) {
   int nb = topo_.nbPins(net);
-  if (nb <= 2) {
+  if (nb <= 2 || singleCellNet(net)) {
+    // No star point for a net on a single cell: connected to nothing else, it
+    // would make the system singular
     addBipoint(net);
   } else {
     float w = topo_.netWeight(net) / nb;
@@ -528,7 +541,7 @@ void MatrixCreator::addClique(int net, const std::vector<float> &pl,
 
 void MatrixCreator::addStar(int net, const std::vector<float> &pl,
                             float epsilon) {
-  if (topo_.nbPins(net) <= 2) {
+  if (topo_.nbPins(net) <= 2 || singleCellNet(net)) {
     addBipoint(net, pl, epsilon);
   } else {
     auto [minI, minCell, minOffset, minPos] = topo_.minPin(net, pl);
@@ -556,7 +569,7 @@ void MatrixCreator::addStar(int net, const std::vector<float> &pl,
 
 void MatrixCreator::addLightStar(int net, const std::vector<float> &pl,
                                  float epsilon) {
-  if (topo_.nbPins(net) <= 2) {
+  if (topo_.nbPins(net) <= 2 || singleCellNet(net)) {
     addBipoint(net, pl, epsilon);
   } else {
     auto [minI, minCell, minOffset, minPos] = topo_.minPin(net, pl);
